@@ -119,7 +119,7 @@ def run_seq(t):
     out = []
     seen_n = set()
     for (dec, g, enc0, sh) in ex.paths():
-        n_path = [f for f in g.path if f[0] == 'floorint'][0][3]
+        n_path = [f for f in g.path if f[0] in ('floorint', 'truncint')][0][3]
         if n_path < 0 or n_path > NMAX:
             continue
         seen_n.add((n_path, g.ints['q.n']))
@@ -172,7 +172,7 @@ def run_len(t):
         nmax = t.get('nmax', 3)
         ex = P.Explorer(tu, s, assume, max_paths=1500, int_choices=range(0, nmax + 1), timeout=20, nonlinear=True, budget_s=400)
         for (dec, g, enc0, sh) in ex.paths():
-            n_path = [f for f in g.path if f[0] == 'floorint'][0][3]
+            n_path = [f for f in g.path if f[0] in ('floorint', 'truncint')][0][3]
             n = g.ints['q.n']
             if n_path < 0 or n_path > nmax or n > 5:
                 continue
